@@ -2,6 +2,7 @@ import OmplModel.Proofs.PlannerProtoRoots
 import OmplModel.Proofs.PlannerProtoControl
 import OmplModel.Proofs.PlannerProtoPrm
 import OmplModel.Proofs.PlannerProtoGoal
+import OmplModel.Proofs.PlannerProtoForget
 /-!
 # C03 — interrupting, resuming or clearing a planner never corrupts its result
 
@@ -357,6 +358,58 @@ example : (solve icoreN Pn (reach icoreN Pn [.setProblemDefinition 1 [(7, true)]
 example : TG.dirtyAfter ccoreN Pn (M.init ccoreN) false
     [.setProblemDefinition 1 [(7, true)], .solve 1 [cdrawN], .setProblemDefinition 2 [(3, true)], .clear] = false := by decide
 example : LawfulCore icoreN := rrti_lawful GN
+
+/-! ## Round 10, second lap: `clear()` forgets completely (bisimulation), monotone best solution along a history -/
+
+/-- **`clear()` forgets the old query completely — for every later history.**  Any core, any planner state `m` (hence
+after any history): after `clear()` the planner is indistinguishable from one that was just constructed and holds the same
+problem definition (`freshWith`: initial core, `lastGoalMotion_` null, `PlannerInputStates` counters zero; the allocation
+counter continues at `m.next`) under EVERY finite history `ops` of solve (any `k`, any oracle answers) / clear /
+clearQuery / setProblemDefinition / getPlannerData / addStartState / setStartAndGoalStates / clearSolutionPaths /
+destructor: the two runs produce the same observations call by call — status, solutions added (their states included),
+allocation events, number of evaluations, what `getPlannerData` reads, what a later `clear()` frees — and end in
+equivalent states.  So nothing the old search left (motions, `lastGoalMotion_`, consumed-start counters) can influence,
+let alone appear in, any later result.  (`clear_forgets` was the one-solve instance.) -/
+theorem clear_forgets_every_history (cs : CoreSpec σ δ D C) (P : Params σ δ) (m : M σ δ C) (ops : List (Op σ D)) :
+    trace cs P (clear cs m) ops = trace cs P (freshWith cs m.pdef m.next) ops ∧
+      Eqv (run cs P (clear cs m) ops) (run cs P (freshWith cs m.pdef m.next) ops) :=
+  trace_eqv cs P ops _ _ (clear_eqv_fresh cs m)
+
+/-- **… and with a NEW problem definition the next `solve()` behaves like a first one**: `clear()` and
+`setProblemDefinition(new object)`, in either order, leave exactly the planner that was just constructed and given that
+problem definition — same observations under every later history (in particular every path of every later `solve` is
+the path the fresh planner returns: built from the new query's start states and the new oracle answers only, never from a
+state of the previous query).  Without the `clear()` this is false for the tree planners (F47,
+`setProblemDefinition_keeps_core`). -/
+theorem new_query_after_clear_is_first_query (cs : CoreSpec σ δ D C) (P : Params σ δ) (m : M σ δ C) (id : Nat)
+    (ss : List (σ × Bool)) (hnew : ∀ pd, m.pdef = some pd → pd.id ≠ id) (ops : List (Op σ D)) :
+    trace cs P (run cs P m [.clear, .setProblemDefinition id ss]) ops =
+        trace cs P (run cs P { M.init cs with next := m.next } [.setProblemDefinition id ss]) ops ∧
+    trace cs P (run cs P m [.setProblemDefinition id ss, .clear]) ops =
+        trace cs P (run cs P { M.init cs with next := m.next } [.setProblemDefinition id ss]) ops :=
+  ⟨(trace_eqv cs P ops _ _ (clear_setpd_eqv cs m id ss hnew).1).1, (trace_eqv cs P ops _ _ (clear_setpd_eqv cs m id ss hnew).2).1⟩
+
+/-- **Resuming can only keep or improve the reported solution — along a whole history**: any core; if the comparison of
+the numbers is transitive (the one law used; `<` on doubles is), then after ANY history of calls on the planner object
+(`solve` any `k`, `clear`, `clearQuery`, `getPlannerData`, destructor) and `addStartState`, the top solution of the problem
+definition is the one it was or one strictly better in `PlannerSolution::operator<`.  (`resume_monotone` is the one-call
+version and needs no law.) -/
+theorem resume_monotone_history (cs : CoreSpec σ δ D C) (P : Params σ δ)
+    (htr : ∀ x y z : δ, P.ltD x y = true → P.ltD y z = true → P.ltD x z = true) (m : M σ δ C) (ops : List (Op σ D))
+    (hops : ∀ op ∈ ops, op.keepsSolutions = true) (b : Sol σ δ) (hb : bestOf m = some b) :
+    ∃ b', bestOf (run cs P m ops) = some b' ∧ (b' = b ∨ Sol.lt P.ltD b' b = true) :=
+  run_best cs P htr ops m hops b hb
+
+/-- non-vacuity: `Nat.lt` is transitive, and a concrete resumed history improves the top solution (approximate with
+difference 5, then exact) -/
+example : ∀ x y z : Nat, Pn.ltD x y = true → Pn.ltD y z = true → Pn.ltD x z = true := by
+  intro x y z h1 h2; simp [Pn] at *; omega
+example : (bestOf (reach coreN Pn [.setProblemDefinition 1 [(7, true)], .solve 1 [⟨0, true, 8, false, 5⟩]])).map (·.approx) = some true ∧
+    (bestOf (reach coreN Pn [.setProblemDefinition 1 [(7, true)], .solve 1 [⟨0, true, 8, false, 5⟩],
+      .solve 5 [⟨1, true, 9, true, 0⟩]])).map (·.approx) = some false := by decide
+/-- the observations of a history after `clear()` on a planner that had searched: the same as on the fresh one (both sides
+evaluated) -/
+example : (trace coreN Pn (clear coreN (reach coreN Pn histN)) [.getPlannerData, .solve 0 []]).length = 2 := by decide
 
 /-! ## Third core: PRM's query bookkeeping (`Model/PlannerProtoPrm.lean`) -/
 
